@@ -112,6 +112,73 @@ void bulk_case(int n, int stop_at, bool stoppable, int layer) {
   if (stoppable && stop_at >= 0 && stop_at < n - 64) vmc::check(rs.how == 'D' && first_missing < n, "C17,C04", "stop-ignored", "stop requested at index " + std::to_string(stop_at) + " but every index was still delivered" + ctx);
 }
 }  // namespace
+
+// ---- execution policy seen by the bulk source under stacked bulk_transform layers -------------------------------------
+// bulk_transform(bulk_transform(src, f1, P1), f2, P2) connected to a receiver with policy PR, for every
+// combination of the four policies.  The probe source records the policy its receiver reports: it must never allow
+// parallel (unsequenced) delivery unless every function policy below it and the final receiver allow it - otherwise a
+// source that acts on the policy calls a function or the receiver concurrently although it only permits seq.
+namespace {
+inline int pol_code(sequenced_policy) { return 0; }
+inline int pol_code(parallel_policy) { return 1; }
+inline int pol_code(unsequenced_policy) { return 2; }
+inline int pol_code(parallel_unsequenced_policy) { return 3; }
+struct ProbeBulkSrc {
+  int* seen; int n;
+  template <template <class...> class V, template <class...> class T> using value_types = V<T<>>;
+  template <template <class...> class V, template <class...> class T> using next_types = V<T<int>>;
+  template <template <class...> class V> using error_types = V<std::exception_ptr>;
+  static constexpr bool sends_done = true;
+  template <class R>
+  struct Op {
+    int* seen; int n; R r;
+    void start() noexcept {
+      *seen = pol_code(get_execution_policy(r));
+      for (int i = 0; i < n; ++i) unifex::set_next(r, int(i));
+      unifex::set_value(std::move(r));
+    }
+  };
+  template <class R> Op<std::decay_t<R>> connect(R&& r) const& { return Op<std::decay_t<R>>{seen, n, (R&&)r}; }
+};
+template <class F> void with_policy(int idx, F&& f) {
+  switch (idx) { case 0: f(seq); break; case 1: f(par); break; case 2: f(unseq); break; default: f(par_unseq); break; }
+}
+struct JoinRcv {
+  RcvState* s;
+  void set_value() noexcept { s->signal('V'); }
+  void set_done() noexcept { s->signal('D'); }
+  template <class E> void set_error(E&&) noexcept { s->signal('E'); }
+};
+}  // namespace
+VMC_SEQ_HARNESS(bulk_policy, "C17") {
+  int layers = 1 + vmc::choose(2);            // one or two bulk_transform layers
+  int p1 = vmc::choose(4), p2 = layers == 2 ? vmc::choose(4) : 3;
+  const int top = 0;
+  int pr = vmc::choose(4);
+  int seen = -1, calls1 = 0, calls2 = 0; const int n = 5;
+  RcvState rs; rs.props = "C17,C01"; std::vector<int> hits(n, 0); int after = 0; inplace_stop_source src;
+  with_policy(p1, [&](auto P1) {
+    with_policy(p2, [&](auto P2) {
+      with_policy(pr, [&](auto PR) {
+        auto f1 = [&calls1](int i) noexcept { ++calls1; return i; };
+        auto f2 = [&calls2](int i) noexcept { ++calls2; return i; };
+        using PRt = decltype(PR);
+        auto run = [&](auto sender) {
+          { BulkRcvP<PRt> r{{&rs, &hits, &after, 0, &src, -1, inplace_stop_token{}}}; auto op = unifex::connect(std::move(sender), std::move(r)); unifex::start(op); }
+        };
+        if (layers == 1) run(bulk_transform(ProbeBulkSrc{&seen, n}, f1, P1));
+        else run(bulk_transform(bulk_transform(ProbeBulkSrc{&seen, n}, f1, P1), f2, P2));
+      });
+    });
+  });
+  int meet = p1 & p2 & pr;
+  std::string ctx = " (layers=" + std::to_string(layers) + " f1=" + std::to_string(p1) + " f2=" + std::to_string(p2) + " receiver=" + std::to_string(pr) + ": source sees " + std::to_string(seen) + ", permitted " + std::to_string(meet) + "; 0 seq 1 par 2 unseq 3 par_unseq)";
+  vmc::check(rs.count == 1 && rs.how == 'V', "C17,C01", "not-once", "bulk pipeline did not complete exactly once with value" + ctx);
+  vmc::check(calls1 == n && (layers == 1 || calls2 == n), "C17", "index-missed", "a transform function was not called once per index" + ctx);
+  if (top == 0) for (int i = 0; i < n; ++i) vmc::check(hits[i] == 1, "C17", "index-missed", "index not delivered exactly once" + ctx);
+  vmc::check((seen & ~meet) == 0, "C17", "policy-widened", "the bulk source is told a policy that permits more than the functions and the receiver below it allow" + ctx);
+  vmc::note("seen" + std::to_string(seen) + (seen == meet ? "=" : "<") + "meet");
+}
 // bulk_schedule(n) x 4 policies x stop requested at an index (from inside set_next) x stoppable / unstoppable receiver
 VMC_SEQ_HARNESS(bulk_sched, "C17,C01,C04") {
   static const int ns[] = {0, 1, 2, 15, 16, 17, 31, 32, 33, 47, 48, 49, 100, 1000};
